@@ -108,6 +108,7 @@ LAZY = (
     ("slice", 2, None),
     ("slice", 0, 0),
     ("slice", 0, 2),
+    ("slice", 0, 9),
     ("chain", ("self",)),
     ("chain", ("L2",)),
     ("chain", ("M2",)),
